@@ -616,6 +616,68 @@ func genOpen(c *hx.Ctx) []*scriptScn {
 	return out
 }
 
+// Stale handles: open id, close it, open the same id again (a new connection object), close the OLD
+// handle once more (twice) — then the Mux closes, the peer closes or the transport fails, with a Read
+// pending on the replacement or issued later, and a sibling id that nobody touched.
+func genReopen(c *hx.Ctx) []*scriptScn {
+	var out []*scriptScn
+	ids := []uint32{1, 2}
+	faults := []string{"close", "peerclose", "trunkclose", "peertrunkclose"}
+	for fi, f := range faults {
+		for side := 0; side < 2; side++ {
+			for ti, transport := range []string{"pipe", "unix"} {
+				for variant := 0; variant < 4; variant++ {
+					pending := variant%2 == 0 // a Read waits on the replacement when the fault comes
+					traffic := variant/2 == 1 // the replacement carries data first
+					if traffic && transport == "unix" {
+						continue
+					}
+					b := newBuilder("muxfault_reopen", transport, 256, ids, ids)
+					b.s.Note = fmt.Sprintf("reopen, stale Close, then %s; opener side %d, pending=%v traffic=%v", f, side, pending, traffic)
+					if transport == "pipe" {
+						b.write(1-side, 1, 3)
+						b.readOrBg(side, 1)
+					}
+					b.add(act{Op: "cclose", Side: side, ID: 1})
+					if (fi+side+ti+variant)%2 == 0 {
+						b.add(act{Op: "cclose", Side: side, ID: 1}) // a repeated Close before the re-Open: harmless in any version
+					}
+					b.open(side, 1)
+					b.add(act{Op: "staleclose", Side: side, ID: 1})
+					if variant != 1 {
+						b.add(act{Op: "staleclose", Side: side, ID: 1})
+					}
+					if traffic {
+						b.write(1-side, 1, 6)
+						b.readOrBg(side, 1)
+						b.write(side, 1, 2)
+						b.readOrBg(1-side, 1)
+					}
+					if pending {
+						b.readOrBg(side, 1)
+						b.readOrBg(side, 2)
+					}
+					switch f {
+					case "close":
+						b.add(act{Op: "close", Side: side})
+					case "peerclose":
+						b.add(act{Op: "close", Side: 1 - side})
+					case "trunkclose":
+						b.add(act{Op: "trunkclose", Side: side})
+					case "peertrunkclose":
+						b.add(act{Op: "trunkclose", Side: 1 - side})
+					}
+					b.joinAll()
+					b.readOrBg(side, 1) // issued later
+					b.readOrBg(side, 2)
+					out = append(out, b.finish())
+				}
+			}
+		}
+	}
+	return out
+}
+
 // ---------------------------------------------------------------- listener wrapper
 
 func genListener(c *hx.Ctx) []*scriptScn {
@@ -682,7 +744,7 @@ func driveFault(c *hx.Ctx) error {
 		f    func(*hx.Ctx) []*scriptScn
 	}{{"muxfault_cut", genCut}, {"muxfault_overflow", genOverflow}, {"muxfault_close", genClose},
 		{"muxfault_closers", genClosers}, {"muxfault_blocked", genBlocked}, {"muxfault_raw", genRaw},
-		{"muxfault_open", genOpen}, {"muxfault_listener", genListener}}
+		{"muxfault_open", genOpen}, {"muxfault_reopen", genReopen}, {"muxfault_listener", genListener}}
 	var all []*scriptScn
 	for _, sc := range corpus(c, "C11") {
 		all = append(all, sc.S)
@@ -726,6 +788,8 @@ func driveFault(c *hx.Ctx) error {
 		"muxfault_closers: 1..16 concurrent closers (Mux.Close and conn.Close mixed) at one or both ends with a blocked Read on every connection; " +
 		"muxfault_blocked: Writes towards a Mux whose reader is not unblocked yet, then close/failure/unblock; muxfault_raw (malformed): frames for unknown and reserved ids and damaged tails from a bare transport end; " +
 		"muxfault_open: Mux.Open of a new id, of the reserved id and of an open id after Close, after the peer closed, after a transport failure at either end, after a Write cut inside a payload, after a queue overflow and next to a conn.Close, at either end, and 1..16 Opens racing with Close; every Read and Write on the new connections must fail promptly on a closed Mux and carry data on a healthy one; " +
+		"muxfault_reopen: on one id (a sibling id untouched): conn.Close, Open again (a new connection object), Close of the OLD handle once or twice more, optionally data over the replacement, then Mux.Close / the peer's Close / a transport failure at either end with a Read pending on the replacement or issued later; " +
+		"an act that depends on an Open that hung or failed is skipped, the hang itself is the observation; " +
 		"muxfault_listener: every sequence of Accept/Close up to length 4 (thorough 7) on the listener wrapper. " +
 		"A cut fails the outgoing direction of one end after an exact number of bytes (the failing trunk.Write returns the n bytes that still went out); after every fault the script waits until each Mux that has to close itself has closed its trunk, so that later calls do not race with its reader. Every call runs under a 20 s bound (1 s for the rest of a scenario once a call has hung; a hung scenario is run again alone before it is reported); a script ends with Close at both ends, a drain of every connection (Reads until 64 consecutive errors) and one more Write. Non-trivial: a fault was injected and at least one call was made after it. Compared in Coq: every call's result class and payload against the model replayed on the same script (select choices taken from the observation), the recorded trunk bytes, and the property's predicate on the observation."
 	return nil
